@@ -28,6 +28,9 @@ rc, out = sh('git', 'diff', '--name-only', '--diff-filter=U')
 for f in out.split():
     if f.startswith('evidence/'):
         sh('git', 'checkout', '--ours', f); sh('git', 'add', f)
+    elif f.startswith('seeded/') and f.endswith('result.json'):
+        # the builder re-ran the seed against the strengthened check: theirs is the newer result
+        sh('git', 'checkout', '--theirs', f); sh('git', 'add', f)
 rc, out = sh('git', 'diff', '--name-only', '--diff-filter=U')
 if out.strip():
     print('UNRESOLVED:', out); sys.exit(1)
